@@ -190,10 +190,9 @@ func (ws *GetRight) Get(ctx context.Context, proxy string,
 		}
 	}
 
-	reader := io.Reader(r.Body)
-	if l > length {
-		reader = io.LimitReader(reader, length)
-	}
+	// Never copy more than what we asked for, whatever the server
+	// announced: the writer's range may extend into the next file.
+	reader := io.LimitReader(r.Body, length)
 
 	n, err := io.Copy(w, reader)
 	ws.Accumulate(int(n))
